@@ -175,14 +175,14 @@ let run_mode stepf script =
   (try
      while true do
        let line = String.trim (input_line ic) in
-       if line = "" || line.[0] = '#' then ()
+       if line = "" || line.[0] = '#' || line.[0] = '?' then ()
        else if line.[0] = '=' then (reset (); print_endline line)
        else begin
          let (k, o) = parse_line line in
          incr opno;
          Printf.printf "O %d\n" !opno;
          let (ret, evs) = model_exec stepf !insts k o in
-         let es = List.sort compare (List.map (fun (i, e) -> str_event i e) evs) in
+         let es = List.map (fun (i, e) -> str_event i e) evs in
          List.iter print_endline es;
          Printf.printf "R %d\n" ret;
          Array.iteri (fun i m ->
@@ -206,10 +206,10 @@ let run_mode stepf script =
    history (current op first), the implementation's snapshot before and after the op and the
    implementation's events of that instance, and returns true when the property's
    statement holds for this step. *)
-type observer = op list -> snapshot -> snapshot -> event list -> bool
-let observers : (string * observer) list ref = ref []
+let prop_number prop =
+  if String.length prop = 3 && prop.[0] = 'C' then int_of_string (String.sub prop 1 2) else 0
 
-let check_mode stepf prop script impl =
+let check_mode flavor stepf prop script impl =
   let ic = open_in script and it = open_in impl in
   let insts = ref (fresh_insts ()) in
   (* implementation's current full snapshot strings, per instance *)
@@ -219,8 +219,56 @@ let check_mode stepf prop script impl =
   let differs = Array.init ninst (fun _ -> Array.make nkeys false) in
   let sname = ref "" and opno = ref 0 in
   let n_ops = ref 0 and n_div = ref 0 and n_mon = ref 0 and n_obs = ref 0 and n_scripts = ref 0 in
+  (* twin-run bookkeeping: per instance, the implementation's events of its last op (instance
+     index blanked), that op, and the implementation's settings before it *)
+  let last_evs = Array.make ninst [] and last_op = Array.make ninst None
+  and last_before = Array.make ninst None in
+  let n_twin = ref 0 and n_badgen = ref 0 and script_invalid = ref false in
+  let norm_ev l = (* blank the instance index, 5th token *)
+    match String.split_on_char ' ' l with
+    | e :: f :: c :: u :: _ :: rest -> String.concat " " (e :: f :: c :: u :: "_" :: rest)
+    | _ -> l in
+  let twin_check kind i j =
+    incr n_twin;
+    let fail what =
+      Printf.printf "MON script=%s op=%d prop=%s twin=%d,%d what=%s\n" !sname !opno prop i j what; incr n_mon in
+    let badgen what =
+      Printf.printf "BADGEN script=%s op=%d twin=%d,%d what=%s\n" !sname !opno i j what; incr n_badgen;
+      script_invalid := true in
+    if !script_invalid then ()
+    else if not (ialive.(i) && ialive.(j)) then badgen "instance-not-alive"
+    else begin
+      (* hypotheses of the relational theorems, evaluated with the extracted predicates *)
+      (match kind with
+       | "?3" ->
+         (match last_op.(i), last_op.(j), last_before.(i) with
+          | Some (OParse g), Some (OParse g'), Some cfg ->
+            if not (dontcare_equiv cfg g g') then badgen "not-dontcare-equivalent"
+          | _ -> badgen "twin-ops-not-parse")
+       | "?4" ->
+         (match last_op.(i), last_op.(j) with
+          | Some (OParseString (Some l)), Some (OParse g) ->
+            if not (hex_ok l && decode l = g) then badgen "not-decode-of-string"
+          | _ -> badgen "twin-ops-not-string/parse")
+       | _ -> ());
+      let keys_differ = ref [] in
+      let text_only = (kind = "?t") in
+      for x = nkeys - 1 downto 0 do
+        if ((not text_only) || (x >= 8 && x <= 11)) && icur.(i).(x) <> icur.(j).(x) then keys_differ := keys.(x) :: !keys_differ
+      done;
+      let ev_filter l =
+        if not text_only then true
+        else (match String.split_on_char ' ' l with _ :: f :: _ -> (match int_of_string_opt f with Some n -> n >= 8 | None -> true) | _ -> true) in
+      let ei = List.sort compare (List.filter ev_filter last_evs.(i))
+      and ej = List.sort compare (List.filter ev_filter last_evs.(j)) in
+      if !script_invalid then ()
+      else if !keys_differ <> [] then fail ("snapshot:" ^ String.concat "," !keys_differ)
+      else if kind <> "?s" && kind <> "?c" && ei <> ej then
+        fail ("events:" ^ String.escaped (String.concat ";;" ei) ^ "<>" ^ String.escaped (String.concat ";;" ej))
+    end in
+  let twin_mode = (try Sys.getenv "VERIF_TWIN" = "1" with Not_found -> false) in
   let obs = if prop = "-" then None else
-      (try Some (List.assoc prop !observers) with Not_found -> None) in
+      Some ((if flavor = "n" then observer_n else observer_u) (z_of_int (prop_number prop))) in
   (* read-ahead on the implementation trace *)
   let pending = ref None in
   let next_impl () =
@@ -259,23 +307,28 @@ let check_mode stepf prop script impl =
          Array.iter (fun a -> Array.fill a 0 nkeys "") icur;
          Array.fill ialive 0 ninst false;
          Array.iter (fun a -> Array.fill a 0 nkeys false) differs;
-         opno := 0; incr n_scripts;
+         opno := 0; incr n_scripts; script_invalid := false;
          sname := String.trim (String.sub line 1 (String.length line - 1));
          (match next_impl () with
           | Some l when l = line -> ()
           | Some l -> Printf.printf "DIV script=%s op=0 key=trace model=%s impl=%s\n" !sname (String.escaped line) (String.escaped l); incr n_div
           | None -> ())
+       end else if line.[0] = '?' then begin
+         (match List.filter (fun x -> x <> "") (String.split_on_char ' ' line) with
+          | [kind; i; j] -> if not !impl_truncated then twin_check kind (int_of_string i) (int_of_string j)
+          | _ -> failwith ("bad twin line: " ^ line))
        end else begin
          let (k, o) = parse_line line in
          incr opno; incr n_ops;
          (* implementation state before the op (typed), only needed by observers *)
          let before =
-           match obs with
-           | Some _ when ialive.(k) && not !impl_truncated ->
-             (try Some (snapshot_of_strings icur.(k)) with _ -> None)
-           | _ -> None in
+           if (obs <> None || twin_mode) && ialive.(k) && not !impl_truncated
+           then (try Some (snapshot_of_strings icur.(k)) with _ -> None) else None in
+         last_before.(k) <- before;
+         last_op.(k) <- (match o with SApi op -> Some op | _ -> None);
          let (mret, mevs) = model_exec stepf !insts k o in
          let (ies, ids, iret) = read_impl_op () in
+         last_evs.(k) <- List.map norm_ev ies;
          if not !impl_truncated then begin
            (* apply the implementation's deltas *)
            List.iter (fun l ->
@@ -294,7 +347,7 @@ let check_mode stepf prop script impl =
                      (match r with Some x -> x | None -> "none"); incr n_div);
            (* events (sorted canonical strings) *)
            let mes = List.sort compare (List.map (fun (i, e) -> str_event i e) mevs) in
-           if mes <> ies then begin
+           if mes <> List.sort compare ies then begin
              Printf.printf "DIV script=%s op=%d key=ev model=%s impl=%s\n" !sname !opno
                (String.escaped (String.concat " ;; " mes)) (String.escaped (String.concat " ;; " ies));
              incr n_div end;
@@ -323,7 +376,7 @@ let check_mode stepf prop script impl =
                  let after = snapshot_of_strings icur.(k) in
                  let evs = List.filter_map (fun l -> let (i, e) = event_of_string l in if i = k then Some e else None) ies in
                  incr n_obs;
-                 if not (f (!insts).(k).hist b after evs) then begin
+                 if not (f (!insts).(k).hist b after evs (z_of_int (match iret with Some r -> (try int_of_string r with _ -> -1) | None -> -1))) then begin
                    Printf.printf "MON script=%s op=%d prop=%s inst=%d line=%s\n" !sname !opno prop k (String.escaped line);
                    incr n_mon end
                with Failure msg ->
@@ -334,12 +387,12 @@ let check_mode stepf prop script impl =
        end
      done
    with End_of_file -> ());
-  Printf.printf "STAT scripts=%d ops=%d div=%d mon=%d observed=%d\n" !n_scripts !n_ops !n_div !n_mon !n_obs;
+  Printf.printf "STAT scripts=%d ops=%d div=%d mon=%d observed=%d twins=%d badgen=%d\n" !n_scripts !n_ops !n_div !n_mon !n_obs !n_twin !n_badgen;
   close_in ic; close_in it
 
 let main () =
   let stepf fl = if fl = "n" then step_n else step_u in
   match Array.to_list Sys.argv with
   | [_; "run"; fl; script] -> run_mode (stepf fl) script
-  | [_; "check"; fl; prop; script; impl] -> check_mode (stepf fl) prop script impl
+  | [_; "check"; fl; prop; script; impl] -> check_mode fl (stepf fl) prop script impl
   | _ -> prerr_endline "usage: driver run <u|n> <script> | driver check <u|n> <prop|-> <script> <impltrace>"; exit 2
